@@ -112,6 +112,13 @@ func Drive(id, tier string, seed uint64, replayFile string) int {
 		fmt.Fprintln(os.Stderr, "no cases generated")
 		return 2
 	}
+	if replayFile == "" {
+		// replays of an earlier run of this property are stale now
+		old, _ := filepath.Glob(filepath.Join(root, "replays", id+"-*.json"))
+		for _, f := range old {
+			os.Remove(f)
+		}
+	}
 	workers := 16
 	if w, ok := p.(Parallelism); ok {
 		workers = w.Workers(tier)
@@ -216,17 +223,34 @@ func Drive(id, tier string, seed uint64, replayFile string) int {
 			return
 		}
 		done := make(chan struct{})
-		limit := time.Duration(caseTimeout*len(b.cases)+30) * time.Second
+		// watchdog: no journal progress (START/SUB/RESULT line) for caseTimeout seconds
 		go func() {
-			select {
-			case <-done:
-			case <-time.After(limit):
-				timedOutA.Set()
-				cmd.Process.Signal(syscall.SIGQUIT) // goroutine dump into the log
+			lastSize, lastChange := int64(-1), time.Now()
+			tick := time.NewTicker(500 * time.Millisecond)
+			defer tick.Stop()
+			for {
 				select {
 				case <-done:
-				case <-time.After(20 * time.Second):
-					syscall.Kill(-cmd.Process.Pid, syscall.SIGKILL)
+					return
+				case <-tick.C:
+				}
+				var sz int64
+				if st, err := os.Stat(of); err == nil {
+					sz = st.Size()
+				}
+				if sz != lastSize {
+					lastSize, lastChange = sz, time.Now()
+					continue
+				}
+				if time.Since(lastChange) > time.Duration(caseTimeout)*time.Second {
+					timedOutA.Set()
+					cmd.Process.Signal(syscall.SIGQUIT) // goroutine dump into the log
+					select {
+					case <-done:
+					case <-time.After(20 * time.Second):
+						syscall.Kill(-cmd.Process.Pid, syscall.SIGKILL)
+					}
+					return
 				}
 			}
 		}()
